@@ -420,6 +420,7 @@ structure StrIn where
   count : Option Int
   untilV : Option (Nat × Nat × Nat × Nat × Nat × Nat)
   orig : RArgs                                             -- `_original_rule` (only the BY-parts)
+  fwd : Int := 0                                           -- `calendar.firstweekday()` at the time of the `str()` call
   deriving Repr, Inhabited
 
 def FREQNAMES : List (List Char) :=
@@ -451,7 +452,7 @@ def byDayPart (v : Option (List WDay)) : List (List Char) :=
 def partsOf (x : StrIn) : List (List Char) :=
   [lit "FREQ=" ++ FREQNAMES.getD x.freq []] ++
   (if x.interval != 1 then [lit "INTERVAL=" ++ showInt x.interval] else []) ++
-  (if x.wkst != 0 then [lit "WKST=" ++ wdName x.wkst] else []) ++
+  (if x.wkst != 0 || x.fwd != 0 then [lit "WKST=" ++ wdName x.wkst] else []) ++   -- `if self._wkst or calendar.firstweekday():`
   (match x.count with | some c => [lit "COUNT=" ++ showInt c] | none => []) ++
   (match x.untilV with | some t => [lit "UNTIL=" ++ showDT t] | none => []) ++
   partOf "BYSETPOS" x.orig.bysetpos ++ partOf "BYMONTH" x.orig.bymonth ++
